@@ -66,9 +66,13 @@ class Loaded:
 class RoundTripFS(GhostFS):
     """ghost FS without faults (C11 covers those) that also records how files were opened for writing"""
 
-    def __init__(self, ctx, target):
-        super().__init__(ctx, target, with_old=False, with_stale_staging=False, die=False, props=("C12",))
+    def __init__(self, ctx, target, with_stale_staging=False):
+        super().__init__(ctx, target, with_old=False, with_stale_staging=with_stale_staging, die=False, props=("C12",))
         self.write_kwargs = {}
+
+    def touch(self, p, exist_ok=True):
+        super().touch(p, exist_ok=exist_ok)
+        self.write_kwargs.setdefault(str(p), ("touch", {}))
 
     def outcome(self, n, label):
         return 0
@@ -126,8 +130,11 @@ def _roundtrip_unit(cls):
         pk = ctx.choose(2, "path-kind")
         import pathlib
 
-        target = "/d/target.txt" if pk == 0 else pathlib.Path("/d/target.txt")
-        gfs = RoundTripFS(ctx, target)
+        from .filestore import GhostPath
+
+        target = "/d/target.txt" if pk == 0 else GhostPath("/d/target.txt")
+        # a staging file left behind by a writer that was killed (any content): part of the environment a later write must cope with
+        gfs = RoundTripFS(ctx, target, with_stale_staging=ctx.choose(2, "stale-staging") == 1)
         env = _rt_env(gfs)
         write = get(rel, f"{cls}.write").compile_into(env)
         read = get(rel, f"{cls}.read").compile_into(env)
@@ -149,8 +156,16 @@ def _roundtrip_unit(cls):
         if kind != "ret":
             return "read-failed"
         wpaths = list(gfs.write_kwargs)
-        ctx.check(f"{cls}/write:stages-into-a-file-private-to-this-target(<target>.STAGING)", bool(wpaths == [gfs.staging]),
-                  info=f"opened for writing: {wpaths}; two stores whose targets differ must never share a staging file")
+        # whatever the staging file is called, it is private to this target: a sibling store whose target differs only in its extension
+        # (result.txt / result.dat, the layout the documentation uses) stages somewhere else, and nobody stages into a target
+        s2 = _Self()
+        s2.path = type(target)("/d/target.dat")
+        s2.encoding = s.encoding
+        kind2, _r2 = _catch(ctx, lambda: write(s2, value))
+        wpaths2 = [p for p in gfs.write_kwargs if p not in wpaths]
+        ctx.check(f"{cls}/write:stages-into-a-file-private-to-this-target(<target>.STAGING)",
+                  bool(len(wpaths) == 1 and kind2 == "ret" and len(wpaths2) == 1 and not ({wpaths[0], wpaths2[0]} & {gfs.target, "/d/target.dat"})),
+                  info=f"opened for writing: {wpaths} then {wpaths2} for the sibling; two stores whose targets differ must never share a staging file")
         wmode, wkw = gfs.write_kwargs[wpaths[0]] if wpaths else ("", {})
         reads = [e for e in gfs.open_log if "w" not in e[1]]
         ctx.check(f"{cls}/read:opens-the-same-path-once", bool(len(reads) == 1 and reads[0][0] == gfs.target))
